@@ -136,8 +136,12 @@ func init() {
 		if err != nil {
 			return "bad replay: " + err.Error()
 		}
-		m, _ := checkEvalTotal(c)
-		return m
+		for i := 0; i < 3; i++ { // one evaluation under each kind of caller context
+			if m, _ := checkEvalTotal(c); m != "" {
+				return m
+			}
+		}
+		return ""
 	})
 }
 
